@@ -174,6 +174,33 @@ func c11forwardAll(p *core.Prog, res *core.Result, fi *core.FuncInfo, rule strin
 					top++
 				}
 			default:
+				// if err := f(item, &dst); err != nil { … }: dst stands for the item from here on
+				if is, ok := s.(*ast.IfStmt); ok && is.Init != nil {
+					ast.Inspect(is.Init, func(y ast.Node) bool {
+						c, ok := y.(*ast.CallExpr)
+						if !ok {
+							return true
+						}
+						uses := false
+						for _, a := range c.Args {
+							if o := defOrUse(info, a); o != nil && carriers[o] {
+								uses = true
+							}
+						}
+						if uses {
+							for _, a := range c.Args {
+								a = ast.Unparen(a)
+								if u, ok := a.(*ast.UnaryExpr); ok && u.Op == token.AND {
+									a = u.X
+								}
+								if o := defOrUse(info, a); o != nil {
+									carriers[o] = true
+								}
+							}
+						}
+						return true
+					})
+				}
 				if hasEscape(s) {
 					escaped = true
 				}
